@@ -474,6 +474,41 @@ func C19(p *ir.Program, r *report.R) {
 		}
 	}
 
+	// ---- the domain logic sits on UNRESTRICTED backend iterators ------------------------------------------
+	// newGoLevelDBIterator / newBadgerIterator implement [start, end) (reverse: start inclusive from
+	// above) themselves, by positioning and by IsKeyInDomain. They are handed iterators over the whole
+	// key space: a backend-side range (leveldb util.Range has an EXCLUSIVE limit) silently removes the
+	// inclusive reverse start. Badger iterators run in the direction the constructor is told.
+	{
+		n := 0
+		for _, m := range []string{"Iterator", "ReverseIterator", "NewIteratorWithPrefix"} {
+			fn := p.Func("libs/db", "GoLevelDB."+m)
+			for _, call := range ir.Calls(fn, "leveldb.DB.NewIterator") {
+				n++
+				r.Check("K5", "iterator-source/db.(*GoLevelDB)."+m+"/whole-key-space", p.InstrPos(call.(ssa.Instruction)), Arg(call, 1) == "nil", "the backend iterator is created without a range: "+short(Arg(call, 1), 80))
+			}
+			bf := p.Func("libs/db", "BadgerDB."+m)
+			for _, call := range ir.Calls(bf, "badger.Txn.NewIterator") {
+				n++
+				opt := Arg(call, 1)
+				// the options value passed has Reverse set (a field store on the local copy) exactly in the reverse constructor
+				rev := false
+				ir.Instrs(bf, func(in ssa.Instruction) {
+					if st, ok := in.(*ssa.Store); ok {
+						if fa, ok := st.Addr.(*ssa.FieldAddr); ok {
+							if fv := fieldVarOf(fa); fv != nil && fv.Name() == "Reverse" && ir.Render(st.Val) == "true" {
+								rev = true
+							}
+						}
+					}
+				})
+				okOpt := rev == (m == "ReverseIterator")
+				r.Check("K5", "iterator-source/db.(*BadgerDB)."+m+"/direction", p.InstrPos(call.(ssa.Instruction)), okOpt, fmt.Sprintf("default options for forward, Reverse=true for reverse iteration: %s", short(opt, 100)))
+			}
+		}
+		r.Check("K5", "iterator-source/sites", "-", n >= 6, fmt.Sprintf("%d backend iterator creations inspected (confirmed by hand: 3 + 3)", n))
+	}
+
 	// ---- keys built from an object's own slice are built on a copy ----------------------------------
 	// append(obj.field, ...) returns a slice that shares obj.field's spare capacity: two keys built
 	// that way overwrite each other (every queued batch operation of a prefixed view ends up with the
